@@ -196,6 +196,15 @@ func (s *SE) UnmarshalText(data []byte) error   { return s.unmarshal(data) }
 func (s *SE) UnmarshalBinary(data []byte) error { return s.unmarshal(data) }
 func (s *SE) UnmarshalJSON(data []byte) error   { return s.unmarshal(data) }
 
+// c20Iface: T itself is an interface type; one list then holds values of several implementing types
+// (SV by value, *SP by pointer). Only the marshal helpers are run with it (an unmarshal helper has no
+// way to make a new value of an interface type without a TypeHelper, which the statement leaves open).
+type c20Iface interface {
+	MarshalText() ([]byte, error)
+	MarshalBinary() ([]byte, error)
+	MarshalJSON() ([]byte, error)
+}
+
 // TextOnly implements only the text interfaces, JSONOnly only the JSON ones, and Mixed has
 // its text methods on the value receiver and its JSON/binary unmarshalers on the pointer receiver.
 type TextOnly struct{ ID, MBeh int }
@@ -232,11 +241,13 @@ func (s *BinaryOnly) UnmarshalBinary(data []byte) error {
 }
 
 // c20Implements: does scripted type typ implement the interface helper h needs?
-// types: 0 SV, 1 *SP, 2 NoIface, 3 TextOnly, 4 JSONOnly, 5 *BinaryOnly, 6 SE
+// types: 0 SV, 1 *SP, 2 NoIface, 3 TextOnly, 4 JSONOnly, 5 *BinaryOnly, 6 SE, 7 c20Iface (an interface type)
 func c20Implements(typ, helper int) bool {
 	switch typ {
 	case 0, 1, 6:
 		return true
+	case 7:
+		return helper%2 == 0
 	case 3:
 		return helper/2 == 0
 	case 4:
@@ -597,6 +608,13 @@ func c20RunList(w *rt.W, helper, typ int, withHelper bool, specs []c20Spec) c20L
 				}
 				return SE{ID: c20ExpID(s), MBeh: s.MBeh}
 			}, func() SE { return SE{} })
+		case 7:
+			c20Invoke(t, helper, withHelper, specs, func(s c20Spec) c20Iface {
+				if s.ID%2 == 0 {
+					return SV{ID: c20MarID(s), MBeh: s.MBeh}
+				}
+				return &SP{ID: c20MarID(s), MBeh: s.MBeh}
+			}, func() c20Iface { return nil })
 		case 3:
 			c20Invoke(t, helper, withHelper, specs, func(s c20Spec) TextOnly {
 				if marshalDir || s.Constraint == 1 {
@@ -749,7 +767,7 @@ func runC20(c *rt.Ctx) {
 			for k := range specs {
 				specs[k] = c20GenSpec(r, 1+r.Intn(900))
 			}
-			typ := []int{0, 0, 0, 1, 1, 2, 3, 4, 5, 6, 6}[r.Intn(11)]
+			typ := []int{0, 0, 0, 1, 1, 2, 3, 4, 5, 6, 6, 7, 7}[r.Intn(13)]
 			if typ != 1 {
 				for k := range specs {
 					specs[k].NilValue = false
@@ -765,6 +783,12 @@ func runC20(c *rt.Ctx) {
 				}
 			}
 			for helper := 0; helper < 6; helper++ {
+				if typ == 7 {
+					if helper%2 == 1 {
+						continue
+					}
+					w.ClassN("interface-typed-T", 1)
+				}
 				j := c20RunList(w, helper, typ, withHelper && helper%2 == 1, specs)
 				switch j.verdict {
 				case oFail:
@@ -795,6 +819,7 @@ func runC20(c *rt.Ctx) {
 	c.Require("list-must-fail", 10000)
 	c.Require("list-must-pass", 10000)
 	c.Require("case-by-case-runs", 10000)
+	c.Require("interface-typed-T", 1000)
 	c.Require("loosely-self-comparing-type-with-partial-difference", 50)
 	c.Require("non-nil-error-holding-nil-pointer", 200)
 	for _, r := range []string{"before hook", "after hook", "missing error", "unmet error predicate", "non-empty result alongside an expected error", "unexpected error", "differing data or value", "type lacks the interface", "errormatch-valid-pattern-nonmatching-nonnil-error"} {
